@@ -167,6 +167,7 @@ func genParse(c *ctx) string {
 	fmt.Fprintf(&b, "def opErrPosAfterLookahead : Bool := %s\n", opErrPosAfterLookahead(c))
 	fmt.Fprintf(&b, "def fragCondPosAfterToken : Bool := %s\n", fragCondPosAfterToken(c))
 	fmt.Fprintf(&b, "def varDefPosAfterToken : Bool := %s\n", varDefPosAfterToken(c))
+	fmt.Fprintf(&b, "def maxParseDepth : Option Nat := %s\n", maxParseDepth(c))
 	type ent struct{ name, h string }
 	var ents []ent
 	for name, fd := range c.funcs {
@@ -192,4 +193,67 @@ func genParse(c *ctx) string {
 	}
 	b.WriteString("]\nend Ggql.Gen\n")
 	return b.String()
+}
+
+// maxParseDepth reads the nesting limit of the scanners (D03): `none` when nothing in the package calls
+// `deeper()` and there is no `MaxParseDepth`; `some N` when `var MaxParseDepth = N`, `deeper` / `shallower`
+// have the bodies below, and exactly the four recursive constructs (the list and object arms of readValue,
+// the list arm of readType, readSelectionSet) call `deeper()` right after re-reading their opening bracket
+// and defer `shallower()`.  (The control flow of those functions is pinned by `parserSkeleton`.)
+func maxParseDepth(c *ctx) string {
+	norm := func(n ast.Node) string {
+		t := regexp.MustCompile(`(?m)//.*$`).ReplaceAllString(c.src(n), "")
+		return regexp.MustCompile(`\s+`).ReplaceAllString(t, " ")
+	}
+	limit := ""
+	for _, f := range c.files {
+		for _, d := range f.Decls {
+			gd, ok := d.(*ast.GenDecl)
+			if !ok {
+				continue
+			}
+			for _, sp := range gd.Specs {
+				vs, ok := sp.(*ast.ValueSpec)
+				if !ok || len(vs.Names) != 1 || vs.Names[0].Name != "MaxParseDepth" || len(vs.Values) != 1 {
+					continue
+				}
+				if bl, ok := vs.Values[0].(*ast.BasicLit); ok && regexp.MustCompile(`^[0-9]+$`).MatchString(bl.Value) {
+					limit = bl.Value
+				} else {
+					return unknown("MaxParseDepth value", "parser.go")
+				}
+			}
+		}
+	}
+	calls := 0
+	for _, fd := range c.funcs {
+		if fd.Body != nil {
+			calls += strings.Count(norm(fd.Body), ".deeper()")
+		}
+	}
+	dp, sh := c.funcs["parser.deeper"], c.funcs["parser.shallower"]
+	if limit == "" && dp == nil && sh == nil && calls == 0 {
+		return "none"
+	}
+	if limit == "" || dp == nil || sh == nil {
+		return unknown("deeper/shallower/MaxParseDepth", "parser.go")
+	}
+	if norm(dp.Body) != `{ p.depth++ if MaxParseDepth < p.depth { return parseError(p.line, p.col, "nested deeper than %d", MaxParseDepth) } return nil }` ||
+		norm(sh.Body) != `{ p.depth-- }` {
+		return unknown("deeper/shallower body", c.pos(dp))
+	}
+	rv, rt, rs := c.funcs["parser.readValue"], c.funcs["parser.readType"], c.funcs["exeParser.readSelectionSet"]
+	if rv == nil || rt == nil || rs == nil {
+		return unknown("readValue/readType/readSelectionSet", "parser.go")
+	}
+	const guard = "if err = p.deeper(); err != nil { return nil, err } defer p.shallower() "
+	ok := strings.Count(norm(rv.Body), "_, _ = p.readByte() "+guard+"list := []interface{}{}") == 1 &&
+		strings.Count(norm(rv.Body), "_, _ = p.readByte() "+guard+"obj := map[string]interface{}{}") == 1 &&
+		strings.Count(norm(rt.Body), "case '[': _, _ = p.readByte() if err = p.deeper(); err != nil { return } defer p.shallower() if t, err = p.readType(); err != nil { return }") == 1 &&
+		strings.Count(norm(rs.Body), "_, _ = p.readByte() "+guard+"FOR:") == 1 &&
+		calls == 4
+	if !ok {
+		return unknown("deeper() call sites", c.pos(rv))
+	}
+	return "(some " + limit + ")"
 }
